@@ -153,6 +153,8 @@ def _md(ck, p, byk):
                 st.vals["codeblock"] = ("flag", True)
             elif isinstance(val, tuple) and cb_idx in val[1]:
                 st.vals["not_cb"] = ("flag", True)       # the edge on which the tag is known not to be a CodeBlock
+            elif isinstance(val, int) and val != cb_idx:
+                st.vals["not_cb"] = ("flag", True)       # the arm of another variant (`match tag { Tag::Paragraph => .. }`)
         elif "Option<&pulldown_cmark::Tag" in f.local_tystr(l) and (val == 0 or (isinstance(val, tuple) and 1 in val[1] and 0 not in val[1])):
             st.vals["no_tag"] = ("flag", True)
 
